@@ -237,6 +237,9 @@ type c15Scenario struct {
 	marks   []cmdID
 	getters []int // number of Get calls per getter thread
 	cancel  bool  // a canceller thread cancels the getters' context
+	// cancelFirst: the canceller only cancels the context of the first getter; the other getters hold a
+	// context that is never cancelled (a request given up at a view change, followed by the next one)
+	cancelFirst bool
 }
 
 func c15Concurrent(r *ev.Reporter) {
@@ -245,12 +248,15 @@ func c15Concurrent(r *ev.Reporter) {
 		bound = 3
 	}
 	scen := []c15Scenario{
-		{"2 adders x 2 cmds, 1 getter x 2 gets, batch 2", 2, [][]cmdID{{{1, 1}, {1, 2}}, {{2, 1}, {2, 2}}}, nil, []int{2}, false},
-		{"2 adders x 1 cmd, 2 getters, batch 1", 1, [][]cmdID{{{1, 1}}, {{2, 1}}}, nil, []int{1, 1}, false},
-		{"1 adder x 2 cmds + marker(1.1), 1 getter, batch 1, canceller", 1, [][]cmdID{{{1, 1}, {1, 2}}}, []cmdID{{1, 1}}, []int{2}, true},
-		{"1 adder x 1 cmd, 1 getter, batch 2, canceller", 2, [][]cmdID{{{1, 1}}}, nil, []int{1}, true},
-		{"2 adders x 2 cmds, 2 getters x 1 get, batch 2", 2, [][]cmdID{{{1, 1}, {1, 2}}, {{2, 1}, {2, 2}}}, nil, []int{1, 1}, false},
-		{"adders (1.1,1.2 | 2.1) + marker(1.1), 1 getter, batch 2", 2, [][]cmdID{{{1, 1}, {1, 2}}, {{2, 1}}}, []cmdID{{1, 1}}, []int{1}, false},
+		{"2 adders x 2 cmds, 1 getter x 2 gets, batch 2", 2, [][]cmdID{{{1, 1}, {1, 2}}, {{2, 1}, {2, 2}}}, nil, []int{2}, false, false},
+		{"2 adders x 1 cmd, 2 getters, batch 1", 1, [][]cmdID{{{1, 1}}, {{2, 1}}}, nil, []int{1, 1}, false, false},
+		{"1 adder x 2 cmds + marker(1.1), 1 getter, batch 1, canceller", 1, [][]cmdID{{{1, 1}, {1, 2}}}, []cmdID{{1, 1}}, []int{2}, true, false},
+		{"1 adder x 1 cmd, 1 getter, batch 2, canceller", 2, [][]cmdID{{{1, 1}}}, nil, []int{1}, true, false},
+		{"2 adders x 2 cmds, 2 getters x 1 get, batch 2", 2, [][]cmdID{{{1, 1}, {1, 2}}, {{2, 1}, {2, 2}}}, nil, []int{1, 1}, false, false},
+		{"adders (1.1,1.2 | 2.1) + marker(1.1), 1 getter, batch 2", 2, [][]cmdID{{{1, 1}, {1, 2}}, {{2, 1}}}, []cmdID{{1, 1}}, []int{1}, false, false},
+		{"1 adder x 1 cmd, getter A (cancelled) + getter B (never cancelled), batch 1", 1, [][]cmdID{{{1, 1}}}, nil, []int{1, 1}, true, true},
+		{"2 adders x 1 cmd, getter A (cancelled) + getter B (never cancelled), batch 2", 2, [][]cmdID{{{1, 1}}, {{2, 1}}}, nil, []int{1, 1}, true, true},
+		{"1 adder x 2 cmds, getter A x 2 gets (cancelled) + getter B (never cancelled), batch 1", 1, [][]cmdID{{{1, 1}, {1, 2}}}, nil, []int{2, 1}, true, true},
 	}
 	var summary []string
 	for _, sc := range scen {
@@ -304,9 +310,13 @@ func c15RunScenario(s *mcrt.Sched, sc c15Scenario) (string, string) {
 		}
 		for i, n := range sc.getters {
 			i, n := i, n
+			gctx := ctx
+			if sc.cancelFirst && i > 0 {
+				gctx = context.Background()
+			}
 			mcrt.GoNamed(fmt.Sprintf("getter%d", i+1), func() {
 				for k := 0; k < n; k++ {
-					b, err := cc.Get(ctx)
+					b, err := cc.Get(gctx)
 					results[i] = append(results[i], getRes{b, err})
 					if err != nil {
 						break
@@ -342,7 +352,7 @@ func c15RunScenario(s *mcrt.Sched, sc c15Scenario) (string, string) {
 				if gr.b != nil {
 					fail = "Get returned both a batch and an error"
 				}
-				if !sc.cancel {
+				if !sc.cancel || (sc.cancelFirst && gi > 0) {
 					fail = fmt.Sprintf("Get ended with %v although its context was never cancelled", gr.err)
 				}
 				continue
